@@ -812,7 +812,79 @@ def judge_fenv(ctx, inst, S):
     return UNDECIDED, "MXCSR final value %s" % T.show(final, 3), rule, None
 
 
+# ---------------------------------------------------------------------------
+# C05 integer division
+
+def div_env_ok(vt):
+    def ok(vals, names):
+        a, b = vals[names.index("a")], vals[names.index("b")]
+        M = (1 << vt.eb) - 1
+        for i in range(vt.n):
+            x = (a >> (i * vt.eb)) & M
+            y = (b >> (i * vt.eb)) & M
+            if y == 0:
+                return False
+            if vt.signed and x == 1 << (vt.eb - 1) and y == M:
+                return False
+        return True
+    return ok
+
+
+def judge_notrap(ctx, inst, S):
+    """no hardware division whose divisor may be zero (or MIN/-1 for sdiv) in a multi-lane div"""
+    from common import HOLDS, REFUTED, UNDECIDED
+    rule = ("every udiv/sdiv/urem/srem reached from a multi-lane div has a provably non-zero divisor; "
+            "no asm division; no out-of-line call")
+    for e in S.effects:
+        if e[0] == "asm" and "div" in e[1]:
+            return REFUTED, "inline asm division %s" % e[1][:40], rule, {"note": "zero divisor in one lane"}
+    if S.flags & {"call", "indirect-call"}:
+        return UNDECIDED, "out-of-line call %s" % [c[0] for c in S.calls][:2], rule, None
+    n = 0
+    und = None
+    for e in S.effects:
+        if e[0] != "trap-div":
+            continue
+        n += 1
+        for dl in e[3]:
+            if not T.nonzero(dl):
+                return REFUTED, "%s at %s with divisor %s" % (e[1], e[2] or "?", T.show(dl, 3, ctx.names)), rule, {
+                    "note": "put 0 in one lane's divisor: the whole vector operation raises SIGFPE"}
+        if e[1] in ("sdiv", "srem"):
+            und = "signed hardware division: MIN / -1 also traps (outside the stated domain, not decided)"
+    return HOLDS, "%d hardware division(s), all with provably non-zero divisors%s" % (n, "; " + und if und else ""), rule, None
+
+
+def fam_div(vt, cfg):
+    if not vt.is_int:
+        return []
+    I = []
+    q = "sdiv" if vt.signed else "udiv"
+    r = "srem" if vt.signed else "urem"
+    eq = lanewise2(lambda c, x, y: T.op(q, c.vt.eb, x, y))
+    er = lanewise2(lambda c, x, y: T.op(r, c.vt.eb, x, y))
+    for nm, body, e, pre in (("div_quot", "avel::div(a, b).quot", eq, ""), ("div_rem", "avel::div(a, b).rem", er, ""),
+                             ("quo", "a / b", eq, ""), ("rem", "a % b", er, ""),
+                             ("quo_assign", "a", eq, "a /= b;"), ("rem_assign", "a", er, "a %= b;")):
+        i = Inst(nm, VV, "V", body, e, pre=pre)
+        i.env_ok = div_env_ok(vt)
+        # the operator forms are tied to div() by body equality (A-ireq); only div() itself is
+        # compared with the closed form
+        i.wrapper_only = not nm.startswith("div_")
+        i.budget_s = 2.5 if TIER == "quick" else 8
+        i.budget_nodes = 120000 if TIER == "quick" else 400000
+        I.append(i)
+    if vt.n > 1:
+        for nm, body in (("div_quot", "avel::div(a, b).quot"), ("div_rem", "avel::div(a, b).rem")):
+            i = Inst(nm, VV, "V", body, None, judge=judge_notrap)
+            i.fname = "w_" + nm
+            i.clause = "no-trap"
+            I.append(i)
+    return I
+
+
 FAMILIES = {
+    "div": fam_div,
     "fpclass": fam_fpclass,
     "round": fam_round,
     "convert": fam_convert,
